@@ -1264,6 +1264,17 @@ pub fn run(case: &Case, ctx: &mut Ctx) -> R {
                         ensure!(ta == Ok(m.total_assets()), "C05/total_assets/wrong-value", "{what}: total_assets() = {:?}, asset balance of the vault = {}", ta, m.total_assets());
                         let ts = v.q("total_supply", args![&v.e]);
                         ensure!(ts == Ok(m.share_supply), "C05/total_supply/wrong-value", "{what}: total_supply() = {:?}, model {}", ts, m.share_supply);
+                        // documented constants of the deposit side ("currently i128::MAX") and the share decimals
+                        // (underlying decimals + offset): the same offset that the rate formula uses
+                        for f in ["max_deposit", "max_mint"] {
+                            let g = v.q_addr(f, who);
+                            ensure!(g == Ok(i128::MAX), format!("C05/{f}/wrong-value"), "{what}: {f}({who}) = {:?}, documented i128::MAX", g);
+                        }
+                        let ad = envx::call_t::<u32>(&v.e, &v.asset, "decimals", args![&v.e]);
+                        let vd = envx::call_t::<u32>(&v.e, &v.vault, "decimals", args![&v.e]);
+                        if let Ok(ad) = ad {
+                            ensure!(vd == Ok(ad + v.offset), "C05/decimals/wrong-value", "{what}: vault decimals() = {:?}, underlying {} + offset {}", vd, ad, v.offset);
+                        }
                     }
                     ProbeKind::MaxRedeem => {
                         let g = v.q_addr(fname, who);
